@@ -235,7 +235,10 @@ func (d *discover) Discover(topic string, opts ...discovery.Option) {
 		return
 	}
 
-	d.discoverQ <- &discoverReq{topic, opts, make(chan struct{}, 1)}
+	select {
+	case d.discoverQ <- &discoverReq{topic, opts, make(chan struct{}, 1)}:
+	case <-d.p.ctx.Done():
+	}
 }
 
 // Bootstrap attempts to bootstrap to a given topic. Returns true if bootstrapped successfully, false otherwise.
